@@ -16,6 +16,10 @@ macro_rules! release {
                 .flatten()
             }
 
+            pub fn accepts(buf: &[u8]) -> bool {
+                matches!(guarded(|| ProguardCache::parse(buf).is_ok()), Some(true))
+            }
+
             fn show_frames<'a>(it: impl Iterator<Item = StackFrame<'a>>) -> String {
                 let v: Vec<String> = it
                     .map(|f| {
@@ -118,6 +122,17 @@ pub fn run_cases(input: &str) -> Vec<String> {
                     *same as u8
                 );
                 if toks[0] == "W" {
+                    // the same file at the eight addresses modulo 8: each reader's accept / reject pattern
+                    let mask = |bytes: &[u8], pinned_reader: bool| -> String {
+                        (0..8)
+                            .map(|k| {
+                                let ob = OffsetBuf::new(bytes, k);
+                                let ok = if pinned_reader { pinned::accepts(ob.bytes()) } else { current::accepts(ob.bytes()) };
+                                if ok { '1' } else { '0' }
+                            })
+                            .collect()
+                    };
+                    ans.push_str(&format!(";app={};apc={};acp={};acc={}", mask(fp.bytes(), true), mask(fp.bytes(), false), mask(fc.bytes(), true), mask(fc.bytes(), false)));
                     // the written bytes themselves, for the comparison with the models of both writers
                     ans.push_str(&format!(";wp={};wc={}", hex(fp.bytes()), hex(fc.bytes())));
                 }
